@@ -62,12 +62,22 @@ impl EventFormatter for JsonLinesFormatter {
 
     if !event.fields.is_empty() {
       if self.config.flatten_fields {
-        // Flatten fields into the top-level map
+        // Flatten fields into the top-level map. A custom field whose name is already
+        // taken by a core key must neither overwrite it nor be lost: such fields are kept
+        // under the nested "fields" object instead.
+        let mut shadowed: BTreeMap<String, Value> = BTreeMap::new();
         for (key, log_value) in &event.fields {
-          // Avoid overwriting core fields if a custom field has the same name
-          if !json_map.contains_key(key) {
+          if key == "fields" || json_map.contains_key(key) {
+            shadowed.insert(key.clone(), Self::log_value_to_json_value(log_value));
+          } else {
             json_map.insert(key.clone(), Self::log_value_to_json_value(log_value));
           }
+        }
+        if !shadowed.is_empty() {
+          json_map.insert(
+            "fields".to_string(),
+            Value::Object(shadowed.into_iter().collect()),
+          );
         }
       } else {
         // Nest fields under the "fields" key
